@@ -350,6 +350,11 @@ pub fn trace_note(name: &str) {
     trace(name, 0);
 }
 
+/// The same with a number (the operand magnitude of the measured step) in the event column.
+pub fn trace_note_at(name: &str, n: u64) {
+    trace(name, n);
+}
+
 fn trace(name: &str, ev: u64) {
     TRACE.with(|t| {
         if let Some(f) = t.borrow_mut().as_mut() {
